@@ -15,7 +15,8 @@ impl syn::parse::Parse for MatchingInput {
 
                 while input.peek(syn::token::Or) {
                     let _: syn::token::Or = input.parse()?;
-                    arg_patterns.push(expect_canonical_arg_pattern(syn::Pat::parse_multi(input)?)?);
+                    // one alternative at a time: `parse_multi` would swallow `(3, 4) | (5, 6)` as a single or-pattern
+                    arg_patterns.push(expect_canonical_arg_pattern(syn::Pat::parse_single(input)?)?);
                 }
             } else {
                 let mut elems = syn::punctuated::Punctuated::<syn::Pat, syn::token::Comma>::new();
